@@ -7,7 +7,7 @@ LEVEL = 'proof'
 RULE = ('dict stage: tree.to_dict() of the implementation, read through a fail-closed decoder (documented node types and keys only), vs the '
         'extracted Gallina to_dict on generated documents, mutations and token soup for all root rules and fragment rules; oracle: text '
         'nodes carry a string and nothing else, markers no children, block nodes no hier children, json.dumps/loads round trip equal, '
-        'to_dict() twice gives equal dicts and leaves every class-level data attribute of bluebell.types untouched, the dict tree is the same in fresh interpreters with different string-hash seeds (attribute-heavy documents), XML built from the reloaded dict equals XML built from '
+        'to_dict() twice gives equal dicts and leaves every class-level data attribute of bluebell.types untouched, one parser object parsing the same text under several roots gives each time the dict a new parser gives and leaves earlier trees alone, the dict tree is the same in fresh interpreters with different string-hash seeds (attribute-heavy documents), XML built from the reloaded dict equals XML built from '
         'the parse tree. non-trivial = dict with >= 5 nodes; distinct by (rule, text).')
 TRUSTED_BASE = [
     'Coq 8.16.1 kernel; no axioms',
@@ -116,6 +116,40 @@ HASH_DOCS = ['SEC 1. - h\n  P.note.small{class lead} Some text.\n', 'P.a.b.c.d{c
              'TABLE.x.y{class z}\n  TR\n    TC.p.q{class r|colspan 2}\n      c\n', 'x {{abbr.a.b{class c|title t} y}} {{term.k.l.m{refersTo #r|class n} z}}\n',
              'SEC.s1.s2.s3{class s0} 2\n  QUOTE.q1.q2{class q0|startQuote "}\n    t\n']
 
+REUSE_GROUPS = [['act', 'bill', 'hierarchical_structure'], ['doc', 'statement', 'debateReport', 'open_structure'], ['debate', 'debate_structure']]
+
+def _reuse_oracle(args):
+    """one parser object, the same text under several roots in a row (as an editor that lets the user switch the document type does):
+    every dict tree is the one a brand new parser gives, and a tree handed out earlier keeps giving the same dict"""
+    text, roots = args
+    import sys
+    sys.setrecursionlimit(20000)
+    p = impl.parser()
+    handed = []
+    for r in roots:
+        try:
+            t = p.parse(text, r); d = t.to_dict()
+        except Exception as e:
+            d = t = None; err = impl.exc_kind(e)
+        try:
+            want = impl.parser().parse(text, r).to_dict()
+        except Exception as e:
+            want = None
+        if d != want:
+            return ('bad', 'root %s after %s on the same parser object: the dict tree differs from a new parser\'s' % (r, [x[0] for x in handed]))
+        if t is not None: handed.append((r, t, json.dumps(d, sort_keys=True)))
+    for r, t, js in handed:
+        if json.dumps(t.to_dict(), sort_keys=True) != js:
+            return ('bad', 'the tree returned for root %s gives a different dict after later parses on the same object' % r)
+    return ('ok', None)
+
+def reuse_cases(ctx, n):
+    out = []
+    for _ in range(n):
+        g = ctx.rng.choice(REUSE_GROUPS)
+        out.append((gen.any_text(ctx.rng, g[0]), [ctx.rng.choice(g) for _ in range(ctx.rng.randint(2, 4))]))
+    return out
+
 def cases(ctx, n):
     p = impl.parser()
     out = []
@@ -158,6 +192,11 @@ def search(ctx, budget):
             ctx.failures.append(({'stage': 'dict', 'rule': c[0], 'text': c[1]}, r[1]))
         elif r[0] == 'ok' and r[2] >= 5:
             ctx.nontrivial(c)
+    rc = reuse_cases(ctx, ctx.n(120, 4000) * budget)
+    for c, r in zip(rc, impl.pmap(_reuse_oracle, rc, chunk=8)):
+        ctx.evaluations += 1; ctx.count('reuse_' + r[0])
+        if r[0] == 'bad':
+            ctx.failures.append(({'stage': 'reuse', 'text': c[0], 'roots': c[1]}, r[1]))
     p = impl.parser()
     for t in HASH_DOCS:
         ctx.evaluations += 1; ctx.count('hash_seed_docs')
@@ -180,6 +219,8 @@ def replay(obj):
     case = obj.get('case') or (obj.get('disagreements') or [{}])[0].get('case')
     if not case:
         print('nothing to replay:', obj.get('broken_obligations')); return 1
+    if case.get('stage') == 'reuse':
+        r = _reuse_oracle((case['text'], case['roots'])); print(r); return 1 if r[0] == 'bad' else 0
     if case.get('stage') == 'hash':
         bad = across_hash_seeds(case['rule'], case['text']); print(bad); return 1 if bad else 0
     ok = stages.replay_stage(case)
